@@ -362,7 +362,7 @@ def check(ctx, rng, home, deciding=True):
             kind = 'literal'
         elif n.cls == 'VariableAccessNode':
             kind = 'selection' if isinstance(n.sem, tuple) and n.sem[0] in ('inst', 'set') else 'variable'
-            if isinstance(n.sem, tuple) and n.sem[0] == 'array':
+            if isinstance(n.sem, tuple) and n.sem[0] in ('array', 'array2'):
                 kind = None
         elif n.cls == 'FieldAccessNode':
             kind = 'attribute'
